@@ -9,4 +9,5 @@ cp -f /repo/Cargo.lock Cargo.lock.base 2>/dev/null || true
 cargo build --release -p psc-verif
 RUSTFLAGS="$RUSTFLAGS -Zsanitizer=address" cargo +nightly build --release -p psc-verif \
 	--target x86_64-unknown-linux-gnu --target-dir "$PWD/target/asan" || echo "note: ASan build failed (C10 will run natively only)"
+# probe binaries for the four quick-tier feature configurations (C20) are built by the check itself on first use
 echo "setup done"
